@@ -59,14 +59,19 @@ func Dot(spec *Spec, w io.WriteCloser, fromNode, toNode string) error {
 
 	seen := make(map[string]bool)
 	node := func(name string, n *Node) error {
-		if n == nil {
-			return fmt.Errorf("unknown node '%s'", name)
-		}
-
 		if _, already := seen[name]; already {
 			return nil
 		}
 		seen[name] = true
+		if n == nil {
+			// A branch target that is not a node of this spec
+			// (missing, empty, or a branch target variable):
+			// draw a placeholder so that the branch has an edge
+			// (as Mermaid does).
+			fmt.Fprintf(w, "  %s [shape=\"plaintext\", style=\"dashed\", color=\"gray\", label=<%s> ]\n",
+				dotID(name), name)
+			return nil
+		}
 		label := name
 		if n.Doc != "" {
 			doc := n.Doc
